@@ -12,6 +12,8 @@ def itemTreeNN (M : NsMap) (rec : XmlVar → Val → Tree) (var : XmlVar) (y : V
   match y with
   | .obj .. => rec var y
   | .any .. => treeOfAny M y
+  -- a QName is written with the prefix the map gives its namespace
+  | .prim (.qname t) => .node var.qname [] M (optText (qnameText M t)) [] none
   | y => primItemTree M var y
 
 /-- the pairs `next_value` yields -/
@@ -68,14 +70,15 @@ def treeNN (Γ : Ctx) (cfg : SerCfg) (M : NsMap) : Nat → Option Str → Option
 def itemRec (Γ : Ctx) (cfg : SerCfg) (M : NsMap) (n : Nat) (pns : Option Str) (var : XmlVar) (y : Val) : Tree :=
   treeNN Γ cfg M n pns (xtOf Γ pns var y) var.qname y
 
-/-- the prefix map serves every `xsi:type` written in `evs` -/
+/-- the prefix map serves every QName written in `evs`, as an `xsi:type` or as the character data of
+a QName-typed element: what the writer makes of it (`qnameText M t`) is resolved back to it -/
 def TypesGood (e : BEnv) (M : NsMap) (evs : List Ev) : Prop :=
-  ∀ t, Ev.attr xsiType (.prim (.qname t)) ∈ evs → typeNameOK e t = true →
-    xsiTypeOf e [(xsiType, qnameText M t)] M = .ok (some t)
+  ∀ t, (Ev.attr xsiType (.prim (.qname t)) ∈ evs ∨ Ev.data (.prim (.qname t)) ∈ evs) →
+    typeNameOK e t = true → xsiTypeOf e [(xsiType, qnameText M t)] M = .ok (some t)
 
 theorem TypesGood.mono {e : BEnv} {M : NsMap} {evs evs' : List Ev} (h : TypesGood e M evs)
     (hsub : ∀ ev ∈ evs', ev ∈ evs) : TypesGood e M evs' :=
-  fun t ht hok => h t (hsub _ ht) hok
+  fun t ht hok => h t (ht.imp (hsub _) (hsub _)) hok
 
 /-- the statement proved by induction on `n` (cf. `MainStmt`): `nl` says that the element is
 written for a nillable var -/
@@ -171,9 +174,13 @@ structure VarBundle (e : BEnv) (Γ : Ctx) (cfg : SerCfg) (pcfg : ParserConfig) (
         (var.init = false ∧ ∃ p, x = .prim p ∧ var.default = .val p)))
 
 theorem itemTreeNN_prim (M : NsMap) (rec : XmlVar → Val → Tree) (var : XmlVar) {y : Val}
-    (h : ∀ c fs, y ≠ .obj c fs) (h' : ∀ q t tl a k, y ≠ .any q t tl a k) :
+    (h : ∀ c fs, y ≠ .obj c fs) (h' : ∀ q t tl a k, y ≠ .any q t tl a k) (hq : ∀ t, y ≠ .prim (.qname t)) :
     itemTreeNN M rec var y = primItemTree M var y := by
-  cases y <;> first | rfl | exact absurd rfl (h _ _) | exact absurd rfl (h' _ _ _ _ _)
+  cases y with
+  | prim p => cases p <;> first | rfl | exact absurd rfl (hq _)
+  | obj c fs => exact absurd rfl (h _ _)
+  | any q t tl a k => exact absurd rfl (h' _ _ _ _ _)
+  | _ => rfl
 
 /-- a primitive-like item: all three sides -/
 theorem primItem_all (e : BEnv) (Γ : Ctx) (cfg : SerCfg) (pcfg : ParserConfig) (M : NsMap)
@@ -192,7 +199,10 @@ theorem primItem_all (e : BEnv) (Γ : Ctx) (cfg : SerCfg) (pcfg : ParserConfig) 
     intro c fs h; subst h; cases hy
   have hno' : ∀ q t tl a k, y ≠ .any q t tl a k := by
     intro q t tl a k h; subst h; cases hy
-  rw [itemTreeNN_prim M rec var hno hno']
+  have hnq : ∀ t', y ≠ .prim (.qname t') := by
+    intro t' h; subst h; cases hy with
+    | prim _ hpt => cases t <;> simp [primHasType] at hpt
+  rw [itemTreeNN_prim M rec var hno hno' hnq]
   obtain ⟨d, hd, hce⟩ := convertElement_N hf hy
   have hsub := primItem_SubW (Γ := Γ) M hy hd
   refine ⟨⟨_, ?_, hsub⟩, itemP_prim e Γ pcfg M hf hw hcl hty hy h1 h2 h3⟩
@@ -430,6 +440,10 @@ theorem deserialize_noQName (e : BEnv) (s : Str) (M : NsMap) : ∀ (types : List
     | some _ => rfl
     | none => exact ih (fun t' h' => h t' (by simp [h']))
 
+theorem primUnionOf_not_qname {var : XmlVar} (h : primUnionOf var = true) : ¬ var.types = [.prim .qname] := by
+  intro hq
+  simp [primUnionOf, hq] at h
+
 theorem primUnionOf_types {var : XmlVar} (h : primUnionOf var = true) :
     ∀ t ∈ var.types, t = .prim .str ∨ t = .prim .int ∨ t = .prim .bool := by
   simp only [primUnionOf, Bool.and_eq_true, List.all_eq_true, Bool.or_eq_true, decide_eq_true_eq] at h
@@ -486,7 +500,8 @@ theorem unionItem_all (e : BEnv) (Γ : Ctx) (cfg : SerCfg) (pcfg : ParserConfig)
     plain M (itemTreeNN M rec var y) = true ∧ ItemP e Γ pcfg M m var y (itemTreeNN M rec var y) := by
   obtain ⟨p, tp, rfl, hpt, hv⟩ := unionItemOK_prim hok
   have hy : PrimItem e var tp (.prim p) := PrimItem.prim p hpt
-  have htree : itemTreeNN M rec var (.prim p) = primItemTree M var (.prim p) := rfl
+  have htree : itemTreeNN M rec var (.prim p) = primItemTree M var (.prim p) := by
+    cases p <;> first | rfl | (cases tp <;> simp [primHasType] at hpt)
   rw [htree]
   obtain ⟨d, hdd, hce⟩ := convertElement_N hf hy
   have hsub := primItem_SubW (Γ := Γ) M hy hdd
@@ -511,6 +526,7 @@ theorem union_bundle (e : BEnv) (Γ : Ctx) (cfg : SerCfg) (pcfg : ParserConfig) 
   replace hx := hx.2
   have hnw : var.isWildcard = false := by simp [VarCore.isWildcard, hf.isElem]
   simp only [hnw, Bool.false_eq_true, if_false, hcl, hp] at hx
+  rw [if_neg (primUnionOf_not_qname hu)] at hx
   have hfI : ∀ fI, (fI = f + 1 ∨ (fI = f ∧ x.isArray = true)) → 2 ≤ fI := by
     intro fI h; rcases h with h | h <;> omega
   by_cases hl : var.listElement = true
@@ -755,6 +771,132 @@ theorem VarBundle.toG {e : BEnv} {Γ : Ctx} {cfg : SerCfg} {pcfg : ParserConfig}
     obtain ⟨⟨evs, hg, hs⟩, hp, hi⟩ := h.items y hy fI hF
     exact ⟨⟨evs, hg, hs, fun _ => itemK_of_itemP hf hc hi⟩, hp⟩, h.short, h.param⟩
 
+/-! ### QName-typed element vars -/
+
+/-- what `ParserUtils.xsi_type` resolves, the `QName` converter resolves to the same name -/
+theorem deOne_of_xsiTypeOf {e : BEnv} {M : NsMap} {v : Str} {t : QN}
+    (h : xsiTypeOf e [(xsiType, v)] M = .ok (some t)) :
+    v ≠ [] ∧ deOne e v (.prim .qname) M = some (.qname t) := by
+  cases v with
+  | nil => simp [xsiTypeOf] at h
+  | cons c r =>
+    refine ⟨by simp, ?_⟩
+    simp only [xsiTypeOf, List.find?_cons, decide_true, Option.map_some] at h
+    cases hr : resolveQName e (c :: r) M with
+    | none => simp [hr] at h
+    | some un =>
+      obtain ⟨uri, name⟩ := un
+      simp only [hr] at h
+      cases hb : buildQName uri (some name) with
+      | none => simp [hb] at h
+      | some q =>
+        simp only [hb, Except.ok.injEq, Option.some.injEq] at h
+        subst h
+        cases uri with
+        | none =>
+          cases name with
+          | nil => simp [buildQName] at hb
+          | cons a l =>
+            simp only [buildQName, Option.some.injEq] at hb
+            simp [deOne, hr, hb]
+        | some u => simp [deOne, hr, hb]
+
+/-- one item of a QName-typed var: generator and writer, and the parser once the prefix map serves it -/
+theorem qnameItem_all (e : BEnv) (Γ : Ctx) (cfg : SerCfg) (pcfg : ParserConfig) (M : NsMap)
+    (ns : Option Str) (rec : XmlVar → Val → Tree) {m : XmlMeta} {var : XmlVar}
+    (hf : ElemFactsN m var) (hch : m.choices = []) (hw : m.mixedContent = false) (hcl : var.clazz = none)
+    (hty : var.types = [.prim .qname]) (htk : var.tokens = false) (hn : var.nillable = false)
+    {y : Val} (hok : qnameItemOK e y = true) (f : Nat) (hfuel : 2 ≤ f) :
+    (∃ evs, itemGen e Γ cfg var ns f y = .ok evs ∧
+      SubW M (isDatatype Γ) evs (treeSax (itemTreeNN M rec var y)) ∧
+      (TypesGood e M evs → ItemK e Γ pcfg M m var y (itemTreeNN M rec var y))) ∧
+    plain M (itemTreeNN M rec var y) = true := by
+  cases y with
+  | prim p =>
+    cases p with
+    | qname t =>
+      have htn : typeNameOK e t = true := by simpa [qnameItemOK] using hok
+      obtain ⟨f', rfl⟩ : ∃ f', f = f' + 2 := ⟨f - 2, by omega⟩
+      have htree : itemTreeNN M rec var (.prim (.qname t)) =
+          .node var.qname [] M (optText (qnameText M t)) [] none := rfl
+      rw [htree]
+      have hce : convertElement var.toVarCore (.prim (.qname t)) =
+          .ok ([Ev.start var.qname] ++ [] ++ [Ev.data (.prim (.qname t))] ++ [Ev.end var.qname]) := by
+        simp [convertElement, hn, hf.anyType, encodePrimitive, bind, Except.bind, pure, Except.pure]
+      have hsub := SubW_elem_dataN (M := M) (isDt := isDatatype Γ) var.qname [] [] false
+        (.prim (.qname t)) (some (qnameText M t)) rfl (by simpa [nilAttr] using AttrsW_nil M (isDatatype Γ))
+        (by simp)
+      refine ⟨⟨[Ev.start var.qname] ++ [] ++ [Ev.data (.prim (.qname t))] ++ [Ev.end var.qname], ?_, ?_,
+        fun hgood => ?_⟩, by simp [plain, plainList]⟩
+      · simp [itemGen, htk, genValue_primItem e Γ cfg hf htk (Or.inr ⟨_, rfl⟩) ns f', hce]
+      · simpa [treeSax_optText] using hsub
+      · have hx := hgood t (Or.inr (by simp)) htn
+        obtain ⟨hne, hde⟩ := deOne_of_xsiTypeOf hx
+        have hopt : optText (qnameText M t) = some (qnameText M t) := by simp [optText, hne]
+        apply itemK_of_itemP hf hch
+        refine ⟨_, _, _, _, rfl, buildNode_primN e Γ hf hcl _ M (by simp), ?_⟩
+        rw [hopt, parseNode]
+        simp [parseVar, htk, hty, deserialize, hde, hn, hw, bind, Except.bind, pure, Except.pure]
+    | _ => simp [qnameItemOK] at hok
+  | _ => simp [qnameItemOK] at hok
+
+/-- an element var of type QName -/
+theorem qname_bundle (e : BEnv) (Γ : Ctx) (cfg : SerCfg) (pcfg : ParserConfig) (M : NsMap)
+    (ns : Option Str) (rec : XmlVar → Val → Tree) {m : XmlMeta} {ci : ClassInfo} {var : XmlVar}
+    (hf : ElemFactsN m var) (hch : m.choices = []) (hw : m.mixedContent = false) (hcl : var.clazz = none)
+    (hp : primTypeOf var = none) (hty : var.types = [.prim .qname]) (hi : var.init = true)
+    (htk : var.tokens = false) (hn : var.nillable = false)
+    (hd : if var.listElement then var.default = .listFactory else var.default = .none)
+    {x : Val} {inh : Bool} (rc : ClassId → Option QN → Val → Bool)
+    (hx : FN.elemValOK inh e Γ m ci var rc x = true) (f : Nat) (hfuel : 2 ≤ f) :
+    VarBundleG e Γ cfg pcfg M m ci ns rec f var x := by
+  unfold FN.elemValOK at hx
+  rw [Bool.and_eq_true] at hx
+  replace hx := hx.2
+  have hnw : var.isWildcard = false := by simp [VarCore.isWildcard, hf.isElem]
+  simp only [hnw, Bool.false_eq_true, if_false, hcl, hp, hty, if_true] at hx
+  have hfI : ∀ fI, (fI = f + 1 ∨ (fI = f ∧ x.isArray = true)) → 2 ≤ fI := by
+    intro fI h; rcases h with h | h <;> omega
+  by_cases hl : var.listElement = true
+  · simp only [hl, if_true] at hx hd
+    cases x <;> simp at hx
+    rename_i xs
+    have hitems : itemsN var (.list xs) = xs := by simp [itemsN, htk]
+    refine ⟨Shape.list xs htk hl ?_, ?_, fun h => by simp [hl] at h, ?_⟩
+    · intro y hy
+      have := hx y hy
+      cases y <;> simp [qnameItemOK] at this <;> rfl
+    · rw [hitems]
+      intro y hy fI hF
+      exact qnameItem_all e Γ cfg pcfg M ns rec hf hch hw hcl hty htk hn (hx y hy) fI (hfI fI hF)
+    · rw [hitems]
+      cases xs with
+      | nil => exact Or.inr ⟨by simp [finalParam, hl, hi], Or.inr (Or.inl ⟨rfl, hd⟩)⟩
+      | cons a l => exact Or.inl (by simp [finalParam, hl, hi])
+  · have hl' : var.listElement = false := by simpa using hl
+    simp only [hl', Bool.false_eq_true, if_false] at hx hd
+    cases x with
+    | none =>
+      have hitems : itemsN var .none = [] := by simp [itemsN, hn]
+      exact ⟨Shape.none htk hl', by simp [hitems], fun _ => by simp [hitems],
+        Or.inr ⟨by simp [hitems, finalParam], Or.inl ⟨rfl, by simpa using hx⟩⟩⟩
+    | prim p =>
+      have hitems : itemsN var (.prim p) = [.prim p] := rfl
+      have hok : qnameItemOK e (.prim p) = true := by simpa using hx
+      refine ⟨Shape.prim p htk hl', ?_, fun _ => by simp [hitems],
+        Or.inl (by simp [hitems, finalParam, hl', hi])⟩
+      rw [hitems]
+      intro y hy fI hF
+      simp only [List.mem_singleton] at hy
+      subst hy
+      exact qnameItem_all e Γ cfg pcfg M ns rec hf hch hw hcl hty htk hn hok fI (hfI fI hF)
+    | list xs => simp [qnameItemOK] at hx
+    | obj c fs => simp [qnameItemOK] at hx
+    | any q tx tl a cs => simp [qnameItemOK] at hx
+    | derived q v tp => simp [qnameItemOK] at hx
+    | attrs a => simp [qnameItemOK] at hx
+
+
 /-- an element var of model type -/
 theorem cls_bundle (ft : Feat) (e : BEnv) (Γ : Ctx) (cfg : SerCfg) (pcfg : ParserConfig) (M : NsMap) (n : Nat)
     (hΓ : ctxOK ft Γ = true)
@@ -878,6 +1020,7 @@ theorem items_nones {e : BEnv} {Γ : Ctx} {m : XmlMeta} {ci : ClassInfo} {var : 
             simp [tokensOK] at hx
         | cls c m' hc htk _ _ _ => rw [htok] at htk; cases htk
         | union _ _ _ _ htk _ _ => rw [htok] at htk; cases htk
+        | qname _ _ _ _ htk _ _ => rw [htok] at htk; cases htk
       · simp at hy
     · have htok' : var.tokens = false := by simpa using htok
       simp only [itemsN, htok', Bool.false_eq_true, if_false] at hy
@@ -902,8 +1045,16 @@ theorem items_nones {e : BEnv} {Γ : Ctx} {m : XmlMeta} {ci : ClassInfo} {var : 
           exact this.1
         · have hl' : var.listElement = false := by simpa using hl
           simp [hl'] at hx
-      | union hc hp _ _ _ _ _ =>
+      | qname hc hp ht _ _ _ _ =>
+        simp only [hc, hp, ht, if_true] at hx
+        by_cases hl : var.listElement = true
+        · simp only [hl, if_true, List.all_eq_true] at hx
+          simpa [qnameItemOK] using hx _ hy
+        · have hl' : var.listElement = false := by simpa using hl
+          simp [hl', qnameItemOK] at hx
+      | union hc hp hu _ _ _ _ =>
         simp only [hc, hp] at hx
+        rw [if_neg (primUnionOf_not_qname hu)] at hx
         by_cases hl : var.listElement = true
         · simp only [hl, if_true, List.all_eq_true] at hx
           simpa [unionItemOK] using hx _ hy
